@@ -27,11 +27,15 @@ def signature(clauses, e):
         return "%s:%s" % (",".join(clauses), e["obs"]["outcome"])
     if e["op"] == "resp_status_line":
         return "%s:%s:rel=%s:frame=%s" % (",".join(clauses), e["obs"]["outcome"], e["rel"], e["frame"])
+    if e["op"] == "resp_struct":
+        return "%s:%s:n=%d:at=%d" % (",".join(clauses), e["obs"]["outcome"], e["n"], e["at"])
     v = e["value"]
     return "%s:%s:ser=%s:parts=%d:%s" % (",".join(clauses), e["obs"]["outcome"], e.get("ser"), len(v["parts"]), body_class(v["parts"]))
 
 
 def describe(clauses, e):
+    if e["op"] == "resp_struct":
+        return {"clauses": clauses, "broken": e["brk"], "n": e["n"], "at": e["at"], "doc": e["doc"][:600], "outcome": e["obs"]["outcome"], "msg": e["obs"].get("msg"), "nparts": e["obs"].get("nparts")}
     if e["op"] == "resp_status_line":
         return {"clauses": clauses, "rel": e["rel"], "frame": e["frame"], "line": e["line"], "outcome": e["obs"]["outcome"], "msg": e["obs"].get("msg")}
     if e["op"] == "resp_corrupt":
